@@ -29,6 +29,16 @@ fn text_for(construct: &str, depth: usize) -> String {
         "callsum" => format!("{}i1{}", "f(i1 + ".repeat(depth), ")".repeat(depth)),
         "subright" => format!("{}i1{}", "i1 - (".repeat(depth), ")".repeat(depth)),
         "string" => format!("\"{}\"", "a\\n".repeat(depth)),
+        // a deep term followed by a numeric index / numeric index chains
+        "negidx" => format!("({}a).0", "-".repeat(depth)),
+        "listidx" => format!("{}i1{}.0", "[".repeat(depth), "]".repeat(depth)),
+        "mapidx" => format!("{}i1{}.0", "{k:".repeat(depth), "}".repeat(depth)),
+        "indexnum" => format!("a{}", ".0".repeat(depth)),
+        // deep operands in positions that are never evaluated
+        "skipeq" => format!("none == {}a", "-".repeat(depth)),
+        "skipand" => format!("false and {}true", "!".repeat(depth)),
+        "skipor" => format!("true or {}i1{}", "[".repeat(depth), "]".repeat(depth)),
+        "skipif" => format!("if true then i1 else {}a", "-".repeat(depth)),
         _ => panic!("unknown construct {construct}"),
     }
 }
